@@ -6,12 +6,14 @@ cd "$(dirname "$0")/../spec"
 one() {
   out=$(timeout 900 tlc -workers 4 -coverage 1 -noGenerateSpecTE -metadir /tmp/tlcm-cov-$$ -config $2 $1.tla 2>&1); rm -rf /tmp/tlcm-cov-$$
   n=$(echo "$out" | grep -cE "^<[A-Za-z0-9_]+ line")
-  never=$(echo "$out" | grep -E "^<[A-Za-z0-9_]+ line [0-9]+, col [0-9]+ to line [0-9]+, col [0-9]+ of module [A-Za-z0-9_]+>: 0:" | sed 's/ line.*//; s/<//' | sort -u | tr '\n' ' ')
+  never=$(echo "$out" | grep -E "^<[A-Za-z0-9_]+ line [0-9]+, col [0-9]+ to line [0-9]+, col [0-9]+ of module [A-Za-z0-9_]+( \([0-9 ]+\))?>: [0-9]+:0$" | sed 's/ line.*//; s/<//' | sort -u | tr '\n' ' ')
   echo "$1 $2: $n actions, never taken: ${never:-none}"
 }
 for mc in "WakeImpl WakeImpl.cfg" "YieldImpl YieldImpl.cfg" "ActivityImplMC ActivityImpl.cfg" "SharedStateImpl SharedStateImpl.cfg" \
   "WhenAllImplMC WhenAllImpl_vee.cfg" "RwMutexImpl RwMutexImpl.cfg" "MutexImpl MutexImpl.cfg" "CvImpl CvImpl.cfg" "SemImplMC SemImpl.cfg" \
   "LatchImplMC LatchImpl_1.cfg" "BarrierImpl BarrierImpl_3.cfg" "BulkImpl BulkImpl.cfg" "IndexQueueImpl IndexQueueImpl_ot.cfg" "JoinImpl JoinImpl.cfg" \
-  "StopStateImpl StopStateImpl.cfg" "DequeImplMC DequeImpl.cfg" "PuSuspendImpl PuSuspendImpl.cfg" "MpiPollImpl MpiPollImpl.cfg" "MpiWaitImpl MpiWaitImpl.cfg"; do
+  "StopStateImpl StopStateImpl.cfg" "DequeImplMC DequeImpl.cfg" "PuSuspendImpl PuSuspendImpl.cfg" "MpiPollImpl MpiPollImpl.cfg" "MpiWaitImpl MpiWaitImpl.cfg" \
+  "IdleStealImpl IdleStealImpl_big.cfg" "ProducerSlotImpl ProducerSlotImpl.cfg" "RwRequestImpl RwRequestImpl.cfg" "MpiModeImpl MpiModeImpl.cfg" \
+  "RecursiveMutexImpl RecursiveMutexImpl.cfg" "SlidingSemImplMC SlidingSemImpl.cfg" "OnceImpl OnceImpl.cfg"; do
   set -- $mc; one $1 $2
 done
